@@ -38,7 +38,16 @@ _add(PropertySpec(
              f"{TR}:LowestCommonAncestor.is_ancestor_of", f"{TR}:LowestCommonAncestor.is_strict_ancestor_of",
              f"{TR}:LowestCommonAncestor.is_comparable", f"{TR}:LowestCommonAncestor.distance",
              f"{TR}:LowestCommonAncestor.__call__", f"{TR}:LowestCommonAncestor.level"],
-    level="proof",
+    level="proof", standins=["trees:axioms-hold-on-concrete-forests"],
     technique="contract-based deductive verification (sparse table and derived ancestry queries proved; Euler-tour core assumed + bounded validation)",
     not_decided=["Euler tour + range minimum => lowest common ancestor / depth (LowestCommonAncestor.__init__, __call__, level, _euler_tour): assumed contracts, validated only by the bounded stand-in"],
+))
+
+DSM = "superrec2.utils.disjoint_set"
+_add(PropertySpec(
+    "C20", files=["subsequences", "disjoint_set"],
+    targets=[f"{DSM}:DisjointSet.__init__", f"{DSM}:DisjointSet.find", f"{DSM}:DisjointSet.unite", f"{DSM}:DisjointSet.__len__"],
+    level="proof", standins=["trees:triples-and-supertrees", "disjoint_set:partition-and-coarsenings"],
+    technique="contract-based deductive verification of the union-find core (ghost representative map); triples / supertrees / to_list / binary(): bounded stand-in",
+    not_decided=["tree_to_triples, tree_from_triples, all_trees_from_triples, supertree, DisjointSet.to_list / binary / group count = number of classes: bounded stand-in only (ete3-bound code, set.pop order, cardinalities)"],
 ))
